@@ -54,12 +54,80 @@ class RowHooks(Hooks):
         return [(st, TOP)]
 
 
+class _WholeHooks(RowHooks):
+    """Concrete sequences for zip / enumerate / range / len so that the whole constructor can be run on one bound pair."""
+
+    def external_call(self, interp, text, args, kwargs, st, func, node):
+        def seq(x):
+            if isinstance(x, ListRef):
+                return tuple(st.lists.get(x.id, ()))
+            if isinstance(x, (tuple, list)):
+                return tuple(x)
+            return None
+
+        if text == "zip":
+            seqs = [seq(a) for a in args]
+            if all(q is not None for q in seqs):
+                return [(st, tuple(zip(*seqs)))]
+        if text == "enumerate" and args:
+            q = seq(args[0])
+            start = kwargs.get("start", args[1] if len(args) > 1 else 0)
+            if q is not None and isinstance(start, int):
+                return [(st, tuple(enumerate(q, start)))]
+        if text == "range" and args and all(isinstance(a, int) for a in args):
+            return [(st, tuple(range(*args)))]
+        if text == "len" and args:
+            q = seq(args[0])
+            if q is not None:
+                return [(st, len(q))]
+        return super().external_call(interp, text, args, kwargs, st, func, node)
+
+
+def _interpret_whole(ctx: Ctx, nc_cls, init) -> list[tuple[dict, dict]]:
+    """Run the whole constructor on one symbolic bound pair (LOWER, UPPER): whatever the loop looks like (enumerate,
+    a counter, rows collected in a local list and distributed afterwards), the row tables are read from the object."""
+    interp = Interp(ctx.repo, _WholeHooks())
+    self_obj = Obj("self", nc_cls.qualname)
+    st = State({"self": {}}, {})
+    env = {init.positional[0]: self_obj}
+    params = init.params[1:]
+    if len(params) < 2:
+        raise AnalysisError("normalised-constraints constructor does not take (lower, upper) bounds")
+    env[params[0]] = (Sym("LOWER"),)
+    env[params[1]] = (Sym("UPPER"),)
+    for p in params[2:]:
+        env[p] = Sym(p)
+    res = []
+    for s2, flow, _val, _e in interp.exec_block(list(init.node.body), env, st, init, 0):
+        if flow not in ("next", "return"):
+            continue
+        rows = {}
+        for f_, v in s2.heap["self"].items():
+            if isinstance(v, ListRef):
+                rows[f_] = tuple(s2.lists.get(v.id, ()))
+            elif isinstance(v, (tuple, list)):
+                rows[f_] = tuple(v)
+        # the single pair sits at position 0: a stored index 0 is the position of the pair
+        rows = {f_: tuple(Sym("IDX") if (x == 0 and isinstance(x, int) and not isinstance(x, bool)) else x for x in vals) for f_, vals in rows.items()}
+        res.append((dict(s2.atoms), rows))
+    if not res:
+        raise AnalysisError("normalised-constraints constructor could not be interpreted")
+    return res
+
+
 def _interpret_rows(ctx: Ctx, nc_cls) -> list[tuple[dict, dict]]:
     """Interpret one iteration of the constructor's loop body: returns
     [(atoms, {list field: appended values})]."""
     init = nc_cls.methods.get("__init__")
     if init is None:
         raise AnalysisError("NormalizedConstraints.__init__ not found")
+    try:
+        return _interpret_loop_body(ctx, nc_cls, init)
+    except AnalysisError:
+        return _interpret_whole(ctx, nc_cls, init)
+
+
+def _interpret_loop_body(ctx: Ctx, nc_cls, init) -> list[tuple[dict, dict]]:
     loops = [n for n in init.node.body if isinstance(n, ast.For)]
     if len(loops) != 1:
         raise AnalysisError("expected exactly one loop over the bounds in the normalised-constraints constructor")
@@ -249,24 +317,35 @@ def c08_1(ctx: Ctx) -> RuleResult:
         ok = len(loops) == 1
         why = "" if ok else "expected one loop over the row tables"
         base_ok = flip_ok = False
+        position_loop = False
         if ok:
             loop = loops[0]
             ztxt = ast.unparse(loop.iter)
             needed = [fields["idx"], flip_field] + ([fields["rhs"]] if with_rhs else [])
-            if not all(f"self.{f}" in ztxt for f in needed) or "zip" not in ztxt:
-                ok, why = False, f"loop iterates `{ztxt}`, not a zip over the row tables {needed}"
+            it_ = X.at(m, loop.iter)
+            # either a zip over the row tables, or a loop over the row positions `range(len(<a row table>))`
+            position_loop = (it_[0] == "call" and it_[1] == ("builtin", "range") and len(it_[2]) == 1 and it_[2][0][0] == "call" and it_[2][0][1] == ("builtin", "len")
+                             and it_[2][0][2] and it_[2][0][2][0][0] == "attr" and it_[2][0][2][0][2] in (fields["idx"], flip_field, fields["rhs"], iseq_field))
+            if not position_loop and (not all(f"self.{f}" in ztxt for f in needed) or "zip" not in ztxt):
+                ok, why = False, f"loop iterates `{ztxt}`, not a zip over the row tables {needed} (nor their positions)"
         if ok:
             def mentions(t, name):
                 return any(x[0] == "attr" and x[2] == name for x in ctx.X.closure(t))
 
+            def is_pos(t):
+                return t[0] == "enumidx" or (position_loop and t[0] == "iter" and t[1] == it_)
+
             def elem_of(t, name):
-                return t[0] == "iter" and mentions(t[1], name)
+                # element of table `name` for the current row: a zip component, or `self.<name>[k]` with k the row position
+                if t[0] == "iter" and t[1] != it_ and mentions(t[1], name):
+                    return True
+                return t[0] == "sub" and t[1][0] == "attr" and t[1][2] == name and is_pos(t[2])
 
             for n in stores:
                 vt = X.at(m, n.value)
                 tt = n.targets[0]
                 row = X.at(m, tt.slice.elts[0] if isinstance(tt.slice, ast.Tuple) else tt.slice)
-                if row[0] != "enumidx":
+                if not is_pos(row):
                     continue
                 if vt[0] == "unary" and vt[1] == "-":
                     # flipped copy: negates the row just written, under `if <flip_k>`
